@@ -130,6 +130,25 @@ func c16(r *Run) {
 			}
 			return false, false
 		}
+		{
+			// the source's error is not dropped: once fill() reported one, waitRead returns an error (the bytes that came with it
+			// stay buffered and are served by the next call; the error itself is not stored anywhere else)
+			fillFn := w.MustFn("(*zcReader).fill")
+			failed := cmpAtom(func(v ssa.Value) bool {
+				c, ok := v.(*ssa.Call)
+				return ok && c.Call.StaticCallee() == fillFn
+			}, isNilConst, neqRel)
+			starts := edgesEstablishing(wr, failed)
+			ss := &Search{Fn: wr}
+			var bad ssa.Instruction
+			for _, ret := range ss.Reachable(starts, func(i ssa.Instruction) bool { _, ok := i.(*ssa.Return); return ok }) {
+				if lastResultAll(ret.(*ssa.Return), isNilConst) {
+					bad = ret
+				}
+			}
+			r.Visited += ss.Visited
+			r.ob("C16.R2:source-error-not-dropped", "once the source reported an error waitRead returns an error on every path: a success return would lose it for good (nothing else remembers it), and the stream would look healthy after a failed read", wr, bad, bad == nil && len(starts) > 0, "no nil return reachable from fill() != nil", true)
+		}
 		r.mustPass("C16.R2:eof-mapped", "the source's io.EOF is surfaced as Exception(ErrEOF)", wr, nil, edgesEstablishing(wr, isEOF), w.isException("ErrEOF"), nil, nil, "Exception(ErrEOF) on every path from err == io.EOF")
 		// returns nil only when enough is buffered
 		enough := func(v ssa.Value) (bool, bool) {
@@ -267,4 +286,7 @@ func c16(r *Run) {
 	// the stream reader's Peek/Next results are served from the LinkBuffer it fills: a block that Release gave back to the pool
 	// must not stay referenced by the buffer, or the next fill (which gets that block again) and the next Peek overwrite each other
 	r.borrow([]string{"C03.R2:no-reference-kept"}, "C03.R2", "C16.R5", func() { c03(r) })
+	// ... and the LinkBuffer mechanisms its Slice / ReadByte / Peek results rest on (C02.R5 reference counts, C01.R2/R3 accounting)
+	r.borrow([]string{"C02.R5:Refer-"}, "C02.R5", "C16.R6", func() { c02(r) })
+	r.borrow([]string{"C01.R2:", "C01.R3:"}, "C01.R", "C16.R7.", func() { c01(r) })
 }
